@@ -9,9 +9,14 @@ using namespace vf;
 static long long g_idx = 0;
 
 // ---------------- scripted stepper ----------------
+// The work arrays a stepper hands to the right-hand side are an answer of the environment: a new driver may get fresh addresses or
+// exactly the addresses an earlier driver had (an allocator is free to do either). g_script_reuse selects the second answer.
 struct Script { size_t dim; std::vector<double> k1, k2, ytmp; };
+static bool g_script_reuse = false; static Script* g_script_pool = nullptr;
 static std::function<void(double, const double*, const double*, int)> g_on_eval;
-static void* s_alloc(size_t dim) { Script* s = new Script; s->dim = dim; s->k1.resize(dim); s->k2.resize(dim); s->ytmp.resize(dim); return s; }
+static void* s_alloc(size_t dim) {
+  if (g_script_reuse) { if (!g_script_pool) { g_script_pool = new Script; g_script_pool->k1.resize(8192); g_script_pool->k2.resize(8192); g_script_pool->ytmp.resize(8192); } g_script_pool->dim = dim; return g_script_pool; }
+  Script* s = new Script; s->dim = dim; s->k1.resize(dim); s->k2.resize(dim); s->ytmp.resize(dim); return s; }
 static int s_apply(void* st, size_t dim, double t, double h, double y[], double yerr[], const double[], double[], const gsl_odeiv2_system* sys) {
   Script* s = (Script*)st;
   if (GSL_ODEIV_FN_EVAL(sys, t, y, s->k1.data()) != GSL_SUCCESS) return GSL_EBADFUNC;
@@ -31,7 +36,7 @@ static int s_apply(void* st, size_t dim, double t, double h, double y[], double 
 static int s_set_driver(void*, const gsl_odeiv2_driver*) { return GSL_SUCCESS; }
 static int s_reset(void*, size_t) { return GSL_SUCCESS; }
 static unsigned int s_order(void*) { return 2; }
-static void s_free(void* st) { delete (Script*)st; }
+static void s_free(void* st) { if (st != g_script_pool) delete (Script*)st; }
 static const gsl_odeiv2_step_type scripted_type = {"scripted-rk-shaped", 0, 0, &s_alloc, &s_apply, &s_set_driver, &s_reset, &s_order, &s_free};
 
 static std::string pjson(const Problem& p) { return J().i("nx", p.nx).i("nsun", p.d).i("nrhos", p.nrho).i("nscalars", p.nsc).i("family", p.family).raw("switches", fmt("[%d,%d,%d,%d,%d]", p.sw[0], p.sw[1], p.sw[2], p.sw[3], p.sw[4])).i("setter_order", p.sw_order).done(); }
@@ -70,6 +75,29 @@ static void layer1_config(Problem p, bool reduced) {
     if (any && nevals != 8) violation("Evolve:unexpected-rhs-call-count", "{\"problem\":" + pjson(p) + ",\"calls\":" + std::to_string(nevals) + "}");
     if (!s.views_coincide()) violation("Evolve:views-not-realiased", "{\"problem\":" + pjson(p) + "}");
   }
+}
+
+// Evolve, re-initialise with the same shape, Evolve again -- with the stepper's work arrays at the same addresses both times
+static void layer1_reini(Problem p) {
+  g_script_reuse = true;
+  p.family = 0;
+  Probe s(p, 0.25);
+  auto conf = [&]() { s.Set_GSL_step(&scripted_type); s.Set_AdaptiveStep(false); s.Set_NumSteps(1); s.Set_abs_error(1e-3); s.Set_rel_error(1e-3); };
+  int neq = p.neq(); bool bad = false; int nevals = 0;
+  g_on_eval = [&](double t, const double* y, const double* dy, int stage) {
+    nevals++; count("rhs_calls_checked");
+    std::vector<double> want(neq); p.rhs(t, y, want.data());
+    double scale = 0; for (int i = 0; i < neq; i++) scale = std::max(scale, std::fabs(y[i]));
+    double tol = 256 * p.d * ref::EPS * (scale + 1), e = 0; for (int i = 0; i < neq; i++) { double di = std::fabs(dy[i] - want[i]); if (!(di <= e)) e = di; }
+    if (!(e <= tol) && !bad) { bad = true; violation("Derive:rhs-mismatch:after-re-initialisation:" + swsig(p), "{\"problem\":" + pjson(p) + ",\"t\":" + jnum(t) + ",\"stage\":" + std::to_string(stage) + "}"); }
+    s.log.times.clear();
+  };
+  count("evaluations"); count("reinitialised_solver_runs"); set_case("re-ini with reused stepper buffers " + pjson(p));
+  try { conf(); s.set_flat(probe_state(p, 0)); s.Evolve(0.2);
+    s.ini(p.nx, p.d, p.nrho, p.nsc, 0.25); s.apply_switches(); conf(); s.set_flat(probe_state(p, 1)); s.Evolve(0.2); s.Evolve(0.1);
+    if (!s.views_coincide()) violation("Evolve:views-not-realiased:after-re-initialisation", "{\"problem\":" + pjson(p) + "}"); }
+  catch (const std::exception& ex) { violation("Evolve:throws-with-scripted-stepper:after-re-initialisation", "{\"problem\":" + pjson(p) + ",\"what\":" + jstr(ex.what()) + "}"); }
+  set_case(""); g_script_reuse = false;
 }
 
 // ---------------- layer 2 ----------------
@@ -170,6 +198,11 @@ int main(int argc, char** argv) {
     if ((caseno++ % ar.nshards) != ar.shard) continue;
     Problem p; p.nx = nx; p.d = d; p.nrho = nrho; p.nsc = nsc; for (int b = 0; b < 5; b++) p.sw[b] = (sw >> b) & 1; p.family = 0; p.kappa = 0.3; p.kappa2 = 0.2;
     layer1_config(p, ar.reduced || (!th && d == 6 && nrho == 3));
+  }
+  for (int nx = 1; nx <= 2; nx++) for (int d : {2, 3}) for (int nrho = 1; nrho <= 2; nrho++) for (int nsc = 0; nsc <= 1; nsc++) for (int sw : {31, 1, 10, 21}) {
+    if ((caseno++ % ar.nshards) != ar.shard) continue;
+    Problem p; p.nx = nx; p.d = d; p.nrho = nrho; p.nsc = nsc; for (int b = 0; b < 5; b++) p.sw[b] = (sw >> b) & 1; p.family = 0; p.kappa = 0.3; p.kappa2 = 0.2;
+    layer1_reini(p);
   }
   // the five switches set in every order class (each one last, forwards and backwards, after all-on, after the complement)
   for (int d : {2, 3}) for (int nsc = 0; nsc <= 1; nsc++) for (int sw = 0; sw < 32; sw++) for (int ord = 1; ord < Probe::N_SW_ORDERS; ord++) {
